@@ -241,16 +241,17 @@ Proof. intros Hinv (t & Ht & Htr & Hteq) Hok Ha.
     assert (Hlast : n = two31 - 1) by lia.
     destruct (xtry_result_inv x n _ _ _ _ _ Hinv Hreq T) as (Hg & _ & _ & Hdisj).
     assert (Hboth : xpub_inv n (mkX (mkPub (xbumped (xlog x) (x_idx x) (x_tid x) (x_off x) (op_required (xlog x) o)) false (ps_claim (x_pub x)))
-                                   (x_off x) (x_tid x) (x_idx x) (x_begin x)) /\
+                                   (l_tlen (xlog x)) (x_tid x) (x_idx x) (x_begin x)) /\
                     xspec_pos (mkX (mkPub (xbumped (xlog x) (x_idx x) (x_tid x) (x_off x) (op_required (xlog x) o)) false (ps_claim (x_pub x)))
-                                   (x_off x) (x_tid x) (x_idx x) (x_begin x)) = xspec_pos x).
-    { destruct Hdisj as [Hsm | (_ & A & B)]; [rewrite Hsm; split; [exact Hinv|reflexivity]|split; assumption]. }
+                                   (l_tlen (xlog x)) (x_tid x) (x_idx x) (x_begin x)) = l_tlen (xlog x) * two31).
+    { split; [destruct Hdisj as [Hsm | (_ & A & B)]; [rewrite Hsm; exact Hinv|exact A]|].
+      unfold xspec_pos. cbn [x_begin x_off]. rewrite Hbeg, Hlast. unfold two31. ring. }
     destruct Hboth as [Hinv' Hsp].
-    apply (flow_last_abs _ _ _ _ _ _ (xspec_pos x) (xspec_pos x)).
+    apply (flow_last_abs _ _ _ _ _ _ (xspec_pos x) (l_tlen (xlog x) * two31)).
     + reflexivity.
     + apply (xp_pos m x n Hinv); assumption.
     + unfold xpub_obs at 1, o_pos. cbn [snd]. rewrite (xpub_position_spec m _ n Hinv') by reflexivity. rewrite Hsp. reflexivity.
-    + right. reflexivity.
+    + left. rewrite Hmaxg. reflexivity.
     + assumption.
     + rewrite Htlg. exact Htl2.
     + cbn [env_of e_limit]. assumption.
